@@ -565,6 +565,30 @@ fn strat18(t: Tier) -> BoxedStrategy<Case18> {
         proptest::collection::vec(any::<u16>(), 3),
     )
         .prop_map(|(base, rows, perm, cuts)| Case18 { base, rows, perm, cuts })
+        .prop_flat_map(|c| (Just(c), proptest::collection::vec((any::<u16>(), 0u8..3, any::<u16>()), 0..4)))
+        .prop_map(|(mut c, twins)| {
+            // Schwab's price-correction pattern: a Sell re-booked on the same date with the same
+            // quantity at another price (or an exact duplicate row), inserted at a random position;
+            // Cancel Sell rows pick their target among all sells, so they meet these twins
+            for (pick, mode, pos) in twins {
+                let sells: Vec<usize> = c.rows.iter().enumerate().filter(|(_, r)| matches!(r.kind, Kind::Sell)).map(|(i, _)| i).collect();
+                if sells.is_empty() {
+                    break;
+                }
+                let src = c.rows[sells[(pick as usize * sells.len()) >> 16]].clone();
+                let mut twin = src.clone();
+                match mode {
+                    0 => {} // exact duplicate
+                    1 => twin.price = src.price.wrapping_add(1) % 100_000,
+                    // (a twin differing only in fees would make a Cancel Sell ambiguous: the cancel
+                    // row carries no fees, so "the identical Sell" is not defined; not generated)
+                    _ => twin.price = src.price.wrapping_add(137) % 100_000,
+                }
+                let at = (pos as usize * (c.rows.len() + 1)) >> 16;
+                c.rows.insert(at, twin);
+            }
+            c
+        })
         .boxed()
 }
 
